@@ -169,17 +169,19 @@ ENGINE_ASSUME = ("the property oracle compares the implementation's answers / ou
 PROPS['C01'] = {
     'exhaustive_in': {'quick': True, 'thorough': True},
     'module': 'SuironVerif.Props.C01',
-    'theorems': ['Suiron.C01.askN_sound', 'Suiron.C01.answers_are_derivable_partial', 'Suiron.C01.sigma_const_partial', 'Suiron.C01.format_var_partial', 'Suiron.C01.format_skip_nonvar_partial', 'Suiron.C01.machine_answer_partial'],
+    'theorems': ['Suiron.C01.C01_pure', 'Suiron.C01.C01_pure_node', 'Suiron.C01.askN_sound', 'Suiron.C01.answers_are_derivable_partial', 'Suiron.C01.sigma_const_partial', 'Suiron.C01.format_var_partial', 'Suiron.C01.format_skip_nonvar_partial', 'Suiron.C01.machine_answer_partial'],
     'oracles': ['C01'],
     'suites': {
         'quick': engine_runs('C01', 1500, [['--pure'], ['--pure', '--print', '2'], []], what='answers'),
         'thorough': engine_runs('C01', 20000, [['--pure']] * 8 + [['--pure', '--print', '2']] * 2 + [[]] * 4, what='answers'),
     },
     'rule': E_RULE, 'design_ref': '5.1',
-    'assumptions': ["PARTIAL: proved is SOUNDNESS (every answer returned by any request is an SLD-derivable answer in the sense of Spec/SLD.lean, for every knowledge "
-                    "base, query, fuel and number of requests, whatever cuts / disjunctions / negations ran), the isolation mechanism (a node's substitution set is never "
-                    "modified), the answer formatting of solve/solve_all and the machine's answer rule; completeness, order and multiplicity (the refinement engine = "
-                    "reference machine) are stated in Props/C01.lean, not proved, and decided by the machine comparison on every run",
+    'assumptions': ["proved: (1) REFINEMENT on the cut-free, negation-free fragment (C01_pure): for every knowledge base whose bodies use calls, built-ins other than `!`, "
+                    "conjunction and disjunction, every query, fuel and number of requests, the answers (and the text written so far) of the successive requests are exactly "
+                    "those of the reference machine Spec/PureMachine.lean started on the query - same answers, order, multiplicity, none for ever once it is exhausted; "
+                    "(2) SOUNDNESS for all programs (every answer is SLD-derivable, Spec/SLD.lean), whatever cuts / negations ran; (3) no leakage between alternatives, the "
+                    "answer formatting. PARTIAL: the refinement for programs with `!`, not, time is not proved (machine comparison on every run); uniqueness of the "
+                    "machine's run (fuel-monotonicity of the unification model) is not proved",
                     ENGINE_ASSUME],
 }
 PROPS['C02'] = {
@@ -216,7 +218,7 @@ PROPS['C03'] = {
 PROPS['C04'] = {
     'exhaustive_in': {'quick': True, 'thorough': True},
     'module': 'SuironVerif.Props.C04',
-    'theorems': ['Suiron.C04.bip_effect_once', 'Suiron.C04.bip_output_appended', 'Suiron.C04.interleave_eq', 'Suiron.C04.interleave_no_markers',
+    'theorems': ['Suiron.C04.output_in_search_order', 'Suiron.C04.bip_effect_once', 'Suiron.C04.bip_output_appended', 'Suiron.C04.interleave_eq', 'Suiron.C04.interleave_no_markers',
                  'Suiron.C04.print_shows_bound_value'],
     'oracles': ['C04'],
     'suites': {
@@ -581,20 +583,22 @@ LEVEL_TEXT = {
     'C17': 'Proved in Lean: count = number of visited cells (= length for literal lists); include/exclude keep, in order, the elements whose test unification '
            'under the unchanged set succeeds / fails and bind nothing; functor matches exactly or by prefix; join follows the spacing rule on the values of '
            'its terms. Tied to the code by the builtins correspondence suite and its oracles.',
-    'C01': 'PARTIAL proof + exhaustive-style differential check. Proved in Lean for all knowledge bases, queries, fuel values and numbers of requests: SOUNDNESS - every '
-           'answer the engine returns, at any request, is an answer of SLD resolution in the declarative sense (some clause, renamed apart, whose head unifies with the '
-           'goal and whose body is answered in turn); node substitution sets are immutable (no leakage between alternatives); the answer formatting. Completeness, '
-           'order and multiplicity are decided by running implementation, engine model and a reference choicepoint-stack machine (both executable Lean definitions) on '
-           'the same generated programs on every check: they must agree request by request (substitution sets with ids, counters, stdout) resp. answer by answer.',
+    'C01': 'Proved in Lean for all knowledge bases, queries, fuel values and numbers of requests: (1) on the cut-free, negation-free fragment the engine model REFINES the '
+           'reference machine (depth-first, left-to-right, clause-order resolution as a stack of goals/try frames): successive requests return exactly the machine\'s '
+           'answers, in order, with multiplicity, and none for ever once it is exhausted, with the same output at every point; (2) for ALL programs every answer ever '
+           'returned is an SLD-derivable answer (soundness); (3) node substitution sets are immutable (no leakage between alternatives); the answer formatting. PARTIAL: '
+           'the refinement for programs with `!`, not, time - decided by running implementation, engine model and the marker machine (executable Lean) on the same '
+           'generated programs on every check, request by request (substitution sets with ids, counters, stdout) resp. answer by answer.',
     'C02': 'Proved in Lean on the engine model for all nodes, knowledge bases, states and fuel: `!` marks its node and raises the cut flag; every node that '
            'passes the flag on is marked when it returns; a marked node answers none and changes nothing (no retry to the left of the cut, no answer '
            'beyond the one being derived); a call whose body cut and then failed tries no later clause; a call never reports a cut to its caller '
            '(callers and siblings unaffected). Model tied to the code, and engine compared with the reference machine, on every run.',
     'C03': 'Proved in Lean on the engine model: the first request on a not-node asks G once and returns its own, unchanged substitution set iff G has no '
            'answer, none otherwise; afterwards the node is exhausted. Agreement with the reference search is decided by the machine comparison.',
-    'C04': 'Proved in Lean: a built-in node runs its effect on the first request only and appends exactly its text to the output; print interleaves its '
-           'arguments with the pieces of the format (or concatenates without markers) and shows bound values. Order and multiplicity of output under '
-           'backtracking are decided by comparing captured stdout per request with the reference machine.',
+    'C04': 'Proved in Lean: on the cut-free, negation-free fragment the text written up to every request equals the text the reference machine has written at that point of '
+           'its depth-first run (output component of the refinement theorem: once per execution, in execution order, retries included); a built-in node runs its effect '
+           'on the first request only and appends exactly its text; print interleaves its arguments with the pieces of the format (or concatenates without markers) and '
+           'shows bound values. With `!`, not, time: order and multiplicity are decided by comparing captured stdout per request with the reference machine.',
     'C05': 'Proved in Lean for all nodes, knowledge bases, global states and fuel values: a request that answers none leaves an exhausted node, and an '
            'exhausted node answers none again with the global state (output, counter, ticks) unchanged, for any number of further requests.',
     'C06': 'Proved in Lean for all well-formed function-free operands, substitution sets, substitutions and fuel: a successful unification keeps every earlier binding verbatim '
